@@ -53,7 +53,9 @@ read d0 d1 suite < $D/confirm.rc || { echo "no confirm.rc"; exit 2; }
 git -C /repo apply $diff || { echo "patch does not apply to /repo"; exit 2; }
 res=""
 for c in $ID $EXTRA; do
-  /verif/vcheck $c quick > $D/check-$c.log 2>&1; rc=$?
+  timeout ${SEED_CHECK_TIMEOUT:-900} /verif/vcheck $c quick > $D/check-$c.log 2>&1; rc=$?
+  # (a changed tree can make an exploration unbounded or a call hang: bounded wait, leftovers removed)
+  [ $rc = 124 ] && { pkill -f '^/verif/bin/vh' ; sleep 2; }
   sigs=$(grep "signature:" $D/check-$c.log | sed 's/.*signature: //' | head -6 | paste -sd';')
   echo "check $c quick exit=$rc sigs=[$sigs]"; res="$res $c:quick:$rc"
 done
